@@ -37,6 +37,7 @@ import (
 	"google.golang.org/grpc/status"
 	"google.golang.org/protobuf/encoding/prototext"
 	"google.golang.org/protobuf/proto"
+	"google.golang.org/protobuf/reflect/protoreflect"
 
 	gpb "github.com/openconfig/gnmi/proto/gnmi"
 	aftpb "github.com/openconfig/gribi/v1/proto/gribi_aft"
@@ -1226,6 +1227,12 @@ func (r *RIBHolder) GetNextHopGroup(id uint64) (*aft.Afts_NextHopGroup, bool) {
 // candidateRIB takes the input set of Afts and returns them as a aft.RIB pointer
 // that can be merged into an existing RIB.
 func candidateRIB(a *aftpb.Afts) (*aft.RIB, error) {
+	// protomap cannot map an enumerated value that is not defined in the schema,
+	// such as a number that a newer client sends, so reject those up front.
+	if err := checkEnumsDefined(a.ProtoReflect()); err != nil {
+		return nil, err
+	}
+
 	paths, err := protomap.PathsFromProto(a)
 	if err != nil {
 		return nil, err
@@ -1269,6 +1276,36 @@ func validateDeleteKey(rr *aft.RIB) error {
 		return fmt.Errorf("invalid key for entry to be deleted, %v", err)
 	}
 	return nil
+}
+
+// checkEnumsDefined returns an error if any enumerated field that is populated in
+// m, or in a message nested within it, holds a number that its enum does not define.
+func checkEnumsDefined(m protoreflect.Message) error {
+	var err error
+	m.Range(func(fd protoreflect.FieldDescriptor, v protoreflect.Value) bool {
+		switch {
+		case fd.IsMap():
+			return true
+		case fd.Kind() == protoreflect.EnumKind && fd.IsList():
+			for i := 0; i < v.List().Len(); i++ {
+				if fd.Enum().Values().ByNumber(v.List().Get(i).Enum()) == nil {
+					err = fmt.Errorf("invalid value %d for enumerated field %s", v.List().Get(i).Enum(), fd.FullName())
+				}
+			}
+		case fd.Kind() == protoreflect.EnumKind:
+			if fd.Enum().Values().ByNumber(v.Enum()) == nil {
+				err = fmt.Errorf("invalid value %d for enumerated field %s", v.Enum(), fd.FullName())
+			}
+		case fd.Message() != nil && fd.IsList():
+			for i := 0; i < v.List().Len() && err == nil; i++ {
+				err = checkEnumsDefined(v.List().Get(i).Message())
+			}
+		case fd.Message() != nil:
+			err = checkEnumsDefined(v.Message())
+		}
+		return err == nil
+	})
+	return err
 }
 
 // AddIPv4 adds the IPv4 entry described by e to the RIB. If the explicitReplace
